@@ -221,6 +221,37 @@ def run(ctx, rep):
                 what = 'the pushed element is not the entry passed in'
             rep.ob('append', s.fn['def'], ok, '%s must append exactly one entry at the end of %s (%s)' % (s.fn['name'], vec, what or repr(post)[:120]), sp=s.fn['sp'], detail={'vector_after': repr(post)[:160]})
     rep.floor('add operations', n_add, 29)
+    # element vectors of entry structures (interleave targets, XOR maps, SMBIOS handles, resources, error data): a public
+    # `add`-style method with one argument appends exactly that argument to exactly one vector of the structure
+    tabs_ = {T.ty for T in all_tables(f)}
+    own_rules = ('hmat::SystemLocality', 'sdt::Sdt', 'aml::PackageBuilder', 'Checksum')
+    n_el = 0
+    for d_, b_ in sorted(f.bodies.items()):
+        if not is_pub(b_) or b_.get('trait') or b_.get('derived') or not b_.get('self_ty') or b_.get('body') is None: continue
+        st_ = norm_ty(b_['self_ty']).split('<')[0]
+        adt_ = f.adt(st_)
+        if not adt_ or st_ in tabs_ or st_ in own_rules or classify(b_, b_['self_ty']) != 'mut': continue
+        vecs_ = [fd['name'] for fd in adt_['variants'][0]['fields'] if fd['ty'].startswith('alloc::vec::Vec<')]
+        ps_ = params_of(b_)
+        if not vecs_ or len(ps_) != 2: continue
+        I = new_interp(f)
+        sv = I.sym_value(st_, 'self'); pre = {v: list(sv.fields[v].segs) for v in vecs_ if isinstance(sv.fields.get(v), SeqV)}
+        arg = I.sym_value(norm_ty(ps_[1][1]), ps_[1][0])
+        run_fn(I, b_['def'], [RefV(Cell(sv), True), arg]); rep.analysed.add(b_['def']); n_el += 1
+        if I.tops: rep.undecided('element-append', b_['def'], I.tops, b_['sp']); continue
+        grown = [v for v in pre if sv.fields[v].segs != pre[v] or sv.fields[v].stores]
+        ok = len(grown) == 1
+        what = 'it changes %d vectors' % len(grown)
+        if ok:
+            post = sv.fields[grown[0]]
+            new = post.segs[len(pre[grown[0]]):]
+            argv = arg.place.get() if isinstance(arg, RefV) else arg
+            ok = post.segs[:len(pre[grown[0]])] == pre[grown[0]] and not post.stores and len(new) == 1 and (
+                (new[0][0] == 'elem' and (new[0][1] is argv or (is_term(new[0][1]) and is_term(argv) and equal(strip_trunc(new[0][1]), argv)[0]) or repr(new[0][1]) == repr(argv)))
+                or (new[0][0] == 'int' and is_term(argv) and equal(strip_trunc(new[0][1]), argv)[0]))
+            what = 'the vector %s ends with %s' % (grown[0], show_segs(new)[:100] if post.is_bytes() else repr(new)[:100])
+        rep.ob('element-append', b_['def'], ok, '%s must append exactly its argument to one vector of %s (%s)' % (b_['name'], st_, what), sp=b_['sp'])
+    rep.floor('element-append operations of entry structures', n_el, 5)
     # SLIT: N localities <-> N*N cells, fixed after construction
     slit = fns_of(f, 'slit::SLIT')
     if 'new' in slit:
